@@ -181,6 +181,8 @@ class Builder:
             return self.vars[node["i"][0] - 1].load()
         if k == "Store":
             return self.vars[node["i"][0] - 1].store(B(a[0]))
+        if k == "Idx":
+            return self.vars[node["i"][0] - 1].index()
         if k == "PVal":
             return params[node["i"][0] - 1]
         if k == "PLoad":
@@ -242,19 +244,48 @@ def mode_of(prog):
     return pt.Mode.Application if prog.get("mode", "app") == "app" else pt.Mode.Signature
 
 
-def compile_recipe(prog, version, scratch_slots=None, frame_pointers=None, assemble_constants=False):
-    """Returns {"teal": text} or {"err": class name, "pyteal_error": bool, "msg": str}."""
+def _cause_var(b, e):
+    """1-based id of the recipe variable whose load the error (or its cause chain) names, else 0."""
+    seen = 0
+    while e is not None and seen < 6:
+        ex = getattr(e, "sourceExpr", None)
+        slot = getattr(ex, "slot", None)
+        if slot is not None:
+            for j, v in enumerate(b.vars, 1):
+                if v.slot is slot:
+                    return j
+        e = e.__cause__
+        seen += 1
+    return 0
+
+
+def compile_recipe(prog, version, scratch_slots=None, frame_pointers=None, assemble_constants=False, mode=None):
+    """Returns {"teal": text} or {"err": class name, "pyteal_error": bool, "msg": str, "cvar": int}."""
+    b = None
     try:
         b = Builder(prog)
         ast = b.build(prog["main"])
         opt = pt.OptimizeOptions(scratch_slots=scratch_slots, frame_pointers=frame_pointers)
-        teal = pt.compileTeal(ast, mode_of(prog), version=version, assembleConstants=assemble_constants,
+        md = mode_of(prog) if mode is None else (pt.Mode.Application if mode == "app" else pt.Mode.Signature)
+        teal = pt.compileTeal(ast, md, version=version, assembleConstants=assemble_constants,
                               optimize=opt)
         return {"teal": teal}
     except PYTEAL_ERRORS as e:
-        return {"err": type(e).__name__, "pyteal_error": True, "msg": str(e)[:300]}
+        return {"err": type(e).__name__, "pyteal_error": True, "msg": str(e)[:300],
+                "cvar": _cause_var(b, e) if b is not None else 0}
     except Exception as e:  # noqa: BLE001  (C20 classifies these)
-        return {"err": type(e).__name__, "pyteal_error": False, "msg": str(e)[:300]}
+        return {"err": type(e).__name__, "pyteal_error": False, "msg": str(e)[:300], "cvar": 0,
+                "site": _raise_site(e)}
+
+
+def _raise_site(e):
+    """innermost pyteal frame of a foreign exception: 'file.py:function' (used as part of finding keys)."""
+    import traceback
+    site = "?"
+    for fs in traceback.extract_tb(e.__traceback__):
+        if "/pyteal/" in fs.filename:
+            site = "%s:%s" % (os.path.basename(fs.filename), fs.name)
+    return site
 
 
 def reset_globals():
